@@ -5,7 +5,7 @@
 // element-wise, CONVERT = the JSON string parsed as the declared type; NULL when the value has another type; NULL or the
 // declared DEFAULT when the path is absent or the line is not valid JSON; regex columns keep working on the raw line.
 // Grid: 20 column definitions (every scalar type, nested paths, array indexes, CONVERT, DEFAULT, NOT NULL, an array column,
-// a regex column next to JSON columns) x 30 lines (nesting, insignificant whitespace around the document, wrong-typed leaves, numbers beyond i64 / f64, duplicate keys,
+// a regex column next to JSON columns) x 32 lines (nesting, insignificant whitespace around the document, wrong-typed leaves, numbers beyond i64 / f64, duplicate keys,
 // arrays, empty containers, non-JSON text, truncated JSON).
 // Also: tables with regex and JSON columns where no pattern matches the JSON line.
 include!("verif_grid_common.rs");
@@ -83,6 +83,7 @@ fn verif_grid() {
         r#"{"o": {"x": 3, "y": {"z": "deep"}, "list": ["p", 2, "q"]}, "l": [10, {"k": "v"}, 2.5]}"#, r#"{"o": {"x": "3", "y": "flat"}, "l": []}"#, r#"{"o": [1, 2], "l": {"0": 1}}"#,
         r#"{"a": 1, "a": 2}"#, r#"{"l": [1, "two", 3.0, null, true]}"#, r#"[5, {"a": false}]"#, r#"[]"#, r#"{}"#, r#"7"#, r#""just a string""#,
         "  {\"a\": 3, \"s\": \"4\"}", "\t{\"a\": 4}  ", " [6, {\"a\": true}]", "\u{a0}{\"a\": 5}",
+        r#"{"\u0061": 8, "s": "9"}"#, r#"{"o": {"\u0078": 4, "y": {"z": "esc\u0061ped"}}, "\u006c": [3]}"#,
         r#"not json at all"#, r#"{"a": 1"#, r#""#, r#"{"a": 1} trailing"#,
     ];
     for (ci, c) in cols.iter().enumerate() {
